@@ -340,7 +340,7 @@ StepV(s, taint) ==
              \* (class names are not compared: the rebuilt object is made of plain AtLeast nodes)
              \cup Fail("result_as_state", (s.h \in taint /\ s.has_state) =>
                          IF s.res_is_node THEN StripCls(s.res) = StripCls(s.res_state) ELSE s.res = s.res_state)
-             \cup (IF s.op = "add" /\ ~s.raised /\ s.h \notin taint THEN
+             \cup (IF s.op \in {"add", "add_q"} /\ ~s.raised /\ s.h \notin taint THEN
                      Fail("refused_iff_clash", s.refused <=> (s.rule_id \in { bf[s.h].kids[i].id : i \in DOMAIN bf[s.h].kids }))
                      \cup (IF s.refused THEN {} ELSE
                            Fail("is_direct_build", s.res = s.res_fresh)
